@@ -236,8 +236,9 @@ type symExec struct {
 	noRet           map[*types.Func]int  // 1 = never returns (every path panics), 2 = returns
 	emitMode        bool                 // record loops as structured events, name labels
 	rangeBind       map[types.Object]val
-	callOverride    map[string]val // decision-table enumeration: fixed result of an external call, by callee id
-	raised          []*sstate      // paths that ended in a never-returning (raising) call, when keepRaised is set
+	callOverride    map[string]val  // decision-table enumeration: fixed result of an external call, by callee id
+	primByID        map[string]bool // FuncIDs never inlined (decision tables)
+	raised          []*sstate       // paths that ended in a never-returning (raising) call, when keepRaised is set
 	keepRaised      bool
 	labelN          int
 }
@@ -598,8 +599,15 @@ func (se *symExec) execAssign(x *ast.AssignStmt, st *sstate) []*sstate {
 			return out
 		default:
 			for _, e := range se.eval(x.Rhs[0], st) {
-				for _, l := range x.Lhs {
-					se.assignTo(l, unk(""), e.st, x.Pos(), "")
+				for i, l := range x.Lhs {
+					v := unk("")
+					if i == 0 {
+						v = e.v
+					} else if i == 1 {
+						// the comma-ok flag of a map lookup / channel receive
+						v = val{kind: vBool, desc: "has(" + se.canon(x.Rhs[0]) + ")"}
+					}
+					se.assignTo(l, v, e.st, x.Pos(), se.canon(x.Rhs[0]))
 				}
 				out = append(out, e.st)
 			}
@@ -1296,6 +1304,9 @@ func (se *symExec) branch(cond ast.Expr, st *sstate) (tr, fa []*sstate) {
 			}
 		}
 		cs := se.canon(cond)
+		if r.v.kind == vBool && r.v.desc != "" && identOf(cond) != nil {
+			cs = r.v.desc // a flag variable is shown as the test that produced it
+		}
 		t.conds = append(t.conds, cs)
 		f.conds = append(f.conds, "!("+cs+")")
 		// refine: !(e > 0) for a non-negative quantity (masked bit-field, length) means e == 0
@@ -1847,7 +1858,7 @@ func (se *symExec) evalCallMulti(call *ast.CallExpr, st *sstate) []pathResult {
 			}
 			continue // the path ends here (panics)
 		}
-		if fn != nil && fn.Pkg() == se.p.Types && !se.primitive[fn] && se.worthInlining(fn) {
+		if fn != nil && fn.Pkg() == se.p.Types && !se.primitive[fn] && !se.primByID[FuncID(fn)] && se.worthInlining(fn) {
 			if fd := se.c.Decl(fn); fd != nil && fd.Body != nil && len(se.inStack) < 8 && !se.onStack(fn) {
 				out = append(out, se.inline(fn, fd, c.recv, c.args, c.st, call)...)
 				continue
@@ -2203,7 +2214,15 @@ func (se *symExec) evalBuiltin(name string, call *ast.CallExpr, st *sstate) []pa
 		}
 		var out []pathResult
 		for _, r := range se.evalList(call.Args, st) {
-			out = append(out, pathResult{r.st, []val{unk("append")}})
+			d := "append"
+			if se.emitMode {
+				var as []string
+				for _, a := range r.vs {
+					as = append(as, a.String())
+				}
+				d = "append(" + strings.Join(as, ", ") + ")"
+			}
+			out = append(out, pathResult{r.st, []val{unk(d)}})
 		}
 		return out
 	case "panic":
